@@ -69,7 +69,15 @@ func joinScenario(r *Run, mode string) {
 	keyDom := 1 + t.Draw(3)
 	mkRow := func(prefix string) func(t *Tape, i, sec int) []octosql.Value {
 		return func(t *Tape, i, sec int) []octosql.Value {
-			return []octosql.Value{intv(1 + t.Draw(keyDom)), intv(1 + t.Draw(2)), idv(prefix, i)}
+			// a NULL now and then: an equality never matches a NULL key, in any key column
+			k1, k2 := intv(1+t.Draw(keyDom)), intv(1+t.Draw(2))
+			if t.Draw(10) == 0 {
+				k1 = octosql.NewNull()
+			}
+			if t.Draw(10) == 0 {
+				k2 = octosql.NewNull()
+			}
+			return []octosql.Value{k1, k2, idv(prefix, i)}
 		}
 	}
 	scriptL := GenChangelog(t.Block(stepBlock*maxSteps+10), ChangelogCfg{MaxSteps: maxSteps, Watermarked: wmL, Retractions: true, Dups: true, Row: mkRow("l"), FinalWM: true})
